@@ -90,3 +90,15 @@ CHECKS = {
     "C09": c09,
     "C20": c20,
 }
+
+
+# ---- plug-in recipes: every lib/props_<component>.py may define CHECKS, MODELS, HARNESSES (merged here)
+import glob as _glob
+import importlib as _importlib
+import os as _os
+
+for _f in sorted(_glob.glob(_os.path.join(_os.path.dirname(_os.path.abspath(__file__)), "props_*.py"))):
+    _m = _importlib.import_module(_os.path.basename(_f)[:-3])
+    CHECKS.update(getattr(_m, "CHECKS", {}))
+    MODELS += [x for x in getattr(_m, "MODELS", []) if x not in MODELS]
+    HARNESSES += [x for x in getattr(_m, "HARNESSES", []) if x not in HARNESSES]
